@@ -85,13 +85,20 @@ func runC18(r *Report, rng *rand.Rand, thorough bool) {
 		n := rng.Intn(3)
 		var out []secReq
 		used := map[string]bool{}
+		// half of the lists let several alternatives name one scheme with scope lists of their own (an OR of requirement
+		// objects): every (alternative, scheme) pair is described, in document order, so the key ends up holding the scopes
+		// of the last alternative that names the scheme (C18_scopes_exact: no later definition uses the key)
+		repeat := rng.Intn(2) == 0
+		if repeat {
+			n = 2 + rng.Intn(2)
+		}
 		for i := 0; i < n; i++ {
 			req := secReq{}
 			m := 1 + rng.Intn(2)
 			for j := 0; j < m; j++ {
 				s := schemes[rng.Intn(len(schemes))]
-				if used[s] {
-					continue // a scheme occurs at most once per operation (statement: "the scopes of each scheme")
+				if used[s] && !repeat {
+					continue // in the other half a scheme occurs at most once per operation
 				}
 				used[s] = true
 				var sc []string
@@ -232,6 +239,18 @@ func runC18(r *Report, rng *rand.Rand, thorough bool) {
 		}
 		r.Count(id+fmt.Sprint(eff), len(eff) > 0 || m.op.sec != nil)
 		r.Dist["fw="+m.v.fw]++
+		seenScheme := map[string]int{}
+		for _, rq := range eff {
+			for s := range rq {
+				seenScheme[s]++
+			}
+		}
+		for _, c := range seenScheme {
+			if c > 1 {
+				r.Dist["scheme_named_by_several_alternatives"]++
+				break
+			}
+		}
 		if m.op.sec == nil {
 			r.Dist["inherits_global"]++
 		} else if len(*m.op.sec) == 0 {
